@@ -9,6 +9,11 @@
 (* parsed with statements, default-sides dice and bitwise operators        *)
 (* switched off (the flags are saved before and restored after it).        *)
 (* When the parse ends pcfg is discarded; cfg is never written.            *)
+(* Text that is compiled only when it is first evaluated - a computed      *)
+(* value created by the host or restored from JSON, the default-sides      *)
+(* expression, the text given to RunExpr - is compiled by a child VM that  *)
+(* starts from cfg: the macros of the input being evaluated do not reach   *)
+(* it (its code is cached, so they would outlive that input).              *)
 (*                                                                         *)
 (* One input is a sequence of items (one per line); the machine records    *)
 (* for each item what the published grammar makes of it under the flags    *)
@@ -102,6 +107,16 @@ StBitwise(paren) ==
   /\ phase' = "stopped"
   /\ UNCHANGED <<cfg, pcfg, macros, runs>>
 
+\* the input loads a host-created computed value whose text is the spelling: compiled lazily, from cfg
+Lazy(f, i) == /\ phase = "parse" /\ Forms[f][i].idlike
+              /\ Put([t |-> "lazy", f |-> f, s |-> Forms[f][i].s], UseOutcome(cfg, f, Forms[f][i]))
+              /\ UNCHANGED <<cfg, pcfg, macros, runs>>
+
+\* the host evaluates a text with RunExpr between inputs: an input of its own, compiled from cfg
+RunExpr(f, i) == /\ phase = "idle" /\ Forms[f][i].idlike
+                 /\ runs' = Append(runs, <<[t |-> "runexpr", f |-> f, s |-> Forms[f][i].s, as |-> UseOutcome(cfg, f, Forms[f][i])]>>)
+                 /\ UNCHANGED <<cfg, pcfg, phase, cur, macros>>
+
 End == /\ phase \in {"parse", "stopped"}
        /\ runs' = Append(runs, cur)
        /\ phase' = "idle" /\ cur' = <<>> /\ macros' = {}
@@ -110,7 +125,7 @@ End == /\ phase \in {"parse", "stopped"}
 
 Next == \/ Begin \/ End
         \/ \E f \in Fam, on \in BOOLEAN : Macro(f, on)
-        \/ \E f \in Fam : \E i \in 1..Len(Forms[f]) : Use(f, i)
+        \/ \E f \in Fam : \E i \in 1..Len(Forms[f]) : Use(f, i) \/ Lazy(f, i) \/ RunExpr(f, i)
         \/ \E k \in StmtKinds : Stmt(k)
         \/ \E i \in 1..Len(NDiceForms) : NDice(i)
         \/ Bitwise
@@ -128,6 +143,10 @@ TypeOK == cfg \in FlagSets /\ pcfg \in FlagSets /\ phase \in {"idle", "parse", "
 FamilyGated == \A i \in 1..Len(cur) :
                  (cur[i].t \in {"use", "st"} /\ "f" \in DOMAIN cur[i] /\ cur[i].as = "dice")
                    => (cfg.fam[cur[i].f] \/ \E j \in 1..(i-1) : cur[j].t = "macro" /\ cur[j].f = cur[i].f /\ cur[j].on)
+\* lazily compiled text is gated by the VM's configuration alone
+LazyGated == /\ \A i \in 1..Len(cur) : (cur[i].t = "lazy" /\ cur[i].as = "dice") => cfg.fam[cur[i].f]
+             /\ \A r \in 1..Len(runs) : \A i \in 1..Len(runs[r]) :
+                   (runs[r][i].t \in {"lazy", "runexpr"} /\ runs[r][i].as = "dice") => cfg.fam[runs[r][i].f]
 \* with statements disabled nothing becomes a statement construct
 StmtsGated == cfg.noStmts => \A i \in 1..Len(cur) : cur[i].as # "stmt"
 NDiceGated == cfg.noNDice => \A i \in 1..Len(cur) : ~(cur[i].t \in {"ndice"} /\ cur[i].as = "dice")
